@@ -158,6 +158,7 @@ class Ctx:
         self.histogram = {}
         self.t0 = time.time()
         self.max_mismatches = 25
+        self.budget_s = float(os.environ.get('VERIF_BUDGET_S', '600' if tier == 'thorough' else '75'))
         self.notes = []
 
     def thorough(self):
@@ -169,8 +170,12 @@ class Ctx:
     def elapsed(self):
         return time.time() - self.t0
 
+    def out_of_time(self):
+        return self.elapsed() > self.budget_s
+
     def stop(self):
-        return len(self.mismatches) >= self.max_mismatches
+        """stop generating: enough mismatches collected, or the time budget of the tier is used up"""
+        return len(self.mismatches) >= self.max_mismatches or self.out_of_time()
 
     def model(self, lines):
         """Send setup lines (expect ok) then return the answer to the last line."""
